@@ -316,7 +316,8 @@ def main(argv=None):
           "assumptions": assumptions, "wall_s": round(time.time() - t0, 2), "violations": len(vio_lines)}
     if prop != "ALL":
         # evidence describes /repo itself; runs against a scratch copy (mutants, REPO=...) must not overwrite it
-        if os.path.realpath(repo_root()) == "/repo":
+        # ... and a run restricted to some units (--units, a debugging aid) does not describe the property's check either
+        if os.path.realpath(repo_root()) == "/repo" and not a.units:
             with open(os.path.join(VERIF, "evidence", f"{prop}.json"), "w") as fh:
                 json.dump(ev, fh, indent=1)
     print(f"pyvc {prop} [{tier}]: units={len(results)} paths={cov['paths_explored']} obligations={n_obl} discharged={n_dis} "
